@@ -49,23 +49,26 @@ func transform(args []byte) []byte {
 
 // World is the per-execution state shared by handlers and oracles.
 type World struct {
-	execs     map[byte]int
-	seenArgs  map[byte][]byte
-	gates     map[byte]bool
-	errText   map[byte]string
-	startSeq  []byte
-	endSeq    []byte
-	active    int
-	overlap   int
-	kept      [][]byte // argument slices retained by handlers (C11)
-	keptSum   []string
-	handlerIn int
-	streamsIn int // stream handlers entered
-	streamsEx int // stream handlers returned
-	pushN     int // messages a stream handler pushes before echoing
-	streamLog map[byte][]string
-	keep      bool        // handlers retain their argument slices
-	streamEnd [][3]string // per ended handler: error of the blocked read, of a later write, of a later read
+	execs      map[byte]int
+	seenArgs   map[byte][]byte
+	gates      map[byte]bool
+	errText    map[byte]string
+	startSeq   []byte
+	endSeq     []byte
+	active     int
+	overlap    int
+	kept       [][]byte // argument slices retained by handlers (C11)
+	keptSum    []string
+	handlerIn  int
+	streamsIn  int // stream handlers entered
+	streamsEx  int // stream handlers returned
+	pushN      int // messages a stream handler pushes before echoing
+	streamLog  map[byte][]string
+	keep       bool        // handlers retain their argument slices
+	streamEnd  [][3]string // per ended handler: error of the blocked read, of a later write, of a later read
+	badPush    bool        // the Push handler first writes a message the body codec refuses
+	badPushErr string      // what that write returned
+	streamHold bool        // the Push handler waits (after each received message) until this is cleared
 }
 
 func newWorld() *World {
